@@ -23,6 +23,7 @@ the repository by the AST frame scan C13.scan.*):
   itself under data['id'] after testing `data['id'] in dic` (FlexibleTimeTreeModel does); may read dic;
   otherwise does not write dic; does not swallow a parse error; returns a fresh object.
 """
+import ast
 import copy
 import importlib
 import itertools
@@ -1160,7 +1161,16 @@ def ob_footprint_ast():
             "process_object_with_key": {("dic", "arg")},
         }
         n = 0
+        import inspect as _insp
+        import textwrap as _tw
         for name, ok in allowed.items():
+            # locals by ROLE (renaming a local is not an alarm): the id local = the name(s) bound from data["id"]; the class local = the
+            # name(s) bound from get_class(...)
+            _t = ast.parse(_tw.dedent(_insp.getsource(getattr(u, name))))
+            id_names = {x.targets[0].id for x in ast.walk(_t) if isinstance(x, ast.Assign) and len(x.targets) == 1 and isinstance(x.targets[0], ast.Name)
+                        and isinstance(x.value, ast.Subscript) and isinstance(x.value.slice, ast.Constant) and x.value.slice.value == "id"}
+            cls_names = {x.targets[0].id for x in ast.walk(_t) if isinstance(x, ast.Assign) and len(x.targets) == 1 and isinstance(x.targets[0], ast.Name)
+                         and isinstance(x.value, ast.Call) and isinstance(x.value.func, ast.Name) and x.value.func.id == "get_class"}
             fp = jh.function_footprint(getattr(u, name), {"dic"})
             if not fp:
                 raise Undecided("no occurrence of dic in %s" % name)
@@ -1169,9 +1179,9 @@ def ob_footprint_ast():
                 if (who, kind) not in ok:
                     raise Refuted("%s uses the registry as %s (%s)" % (name, kind, detail), witness={"function": name, "footprint": fp},
                                   replay=None, confirmed=None)
-                if kind == "write[]" and detail != "id_":
-                    raise Refuted("%s writes dic[%s], not dic[id_]" % (name, detail), witness={"footprint": fp}, replay=None, confirmed=None)
-                if kind == "arg" and not (detail.split("#")[0] in ("process_object", "klass.from_json_safe")):
+                if kind == "write[]" and detail not in id_names:
+                    raise Refuted("%s writes dic[%s], not dic[<the local bound from data['id']: %s>]" % (name, detail, sorted(id_names)), witness={"footprint": fp}, replay=None, confirmed=None)
+                if kind == "arg" and not (detail.split("#")[0] in {"process_object"} | {"%s.from_json_safe" % k for k in cls_names}):
                     raise Refuted("%s passes the registry to %s" % (name, detail), witness={"footprint": fp}, replay=None, confirmed=None)
         return {"backend": "ast", "cases": n,
                 "statement": "every syntactic occurrence of dic in process_object/process_objects/process_object_with_key is dic[...] read, "
@@ -1684,9 +1694,10 @@ class InsertRecheck(jh.ast.NodeTransformer):
     def visit_Assign(self, node):
         t = node.targets[0]
         if isinstance(t, jh.ast.Subscript) and isinstance(t.value, jh.ast.Name) and t.value.id == "dic" \
-                and isinstance(t.slice, jh.ast.Name) and t.slice.id == "id_":
+                and isinstance(t.slice, jh.ast.Name) and isinstance(node.value, jh.ast.Name):
             self.hits += 1
-            chk = jh.ast.parse("if id_ in dic and dic[id_] is not obj:\n    raise JSONParseError('already exists')").body[0]
+            i_, o_ = t.slice.id, node.value.id      # the code's own names for the id and the constructed object
+            chk = jh.ast.parse("if %s in dic and dic[%s] is not %s:\n    raise JSONParseError('already exists')" % (i_, i_, o_)).body[0]
             return [chk, node]
         return node
 
